@@ -36,22 +36,22 @@ var (
 
 // RunLine is one line of worker output.
 type RunLine struct {
-	Run        uint64         `json:"run"`
-	Digest     string         `json:"digest"`
-	Sig        string         `json:"sig"`
-	Steps      int            `json:"steps"`
-	SimMs      int64          `json:"sim_ms"`
-	WallUs     int64          `json:"wall_us"`
-	Ended      string         `json:"ended"`
-	Stats      map[string]int `json:"stats,omitempty"`
-	Overlap    bool           `json:"overlap,omitempty"`
-	Preempts   int            `json:"preempts,omitempty"`
-	Violations []Violation    `json:"violations,omitempty"`
-	Leak       string         `json:"leak,omitempty"`
-	Panic      string         `json:"panic,omitempty"`
+	Run        uint64              `json:"run"`
+	Digest     string              `json:"digest"`
+	Sig        string              `json:"sig"`
+	Steps      int                 `json:"steps"`
+	SimMs      int64               `json:"sim_ms"`
+	WallUs     int64               `json:"wall_us"`
+	Ended      string              `json:"ended"`
+	Stats      map[string]int      `json:"stats,omitempty"`
+	Overlap    bool                `json:"overlap,omitempty"`
+	Preempts   int                 `json:"preempts,omitempty"`
+	Violations []Violation         `json:"violations,omitempty"`
+	Leak       string              `json:"leak,omitempty"`
+	Panic      string              `json:"panic,omitempty"`
 	Tape       map[string][]uint32 `json:"tape,omitempty"`
-	Trace      []string       `json:"trace,omitempty"`
-	Notes      map[string]any `json:"notes,omitempty"`
+	Trace      []string            `json:"trace,omitempty"`
+	Notes      map[string]any      `json:"notes,omitempty"`
 }
 
 func parseParams(s string) map[string]string {
